@@ -125,7 +125,8 @@ def run_case(case, rng):
     for i in range(len(S)):
         case.count("values_compared")
         if pinned[i]:
-            case.check(V[i] == 0.0, "absorbing-state-value!=0", f"V[{S[i]!r}]={V[i]}")
+            # worth 0 up to the round-off of the library's matrix inverse (7e-16 observed in the thorough tier)
+            case.check(abs(V[i]) <= tol, "absorbing-state-value!=0", f"V[{S[i]!r}]={V[i]}")
             continue
         if np.isfinite(Vr[i]):
             case.check(np.isfinite(V[i]) and abs(V[i] - Vr[i]) <= tol, "state_value-differs",
